@@ -77,6 +77,22 @@ func sameLineTables(m *Model) bool {
 	return false
 }
 
+// a table re-opened in a second file with two of its columns on the same line
+func sameLineColumns(m *Model) bool {
+	_, _, cl := m.render()
+	for _, t := range m.Tables {
+		seen := map[int]bool{}
+		for _, c := range t.Cols {
+			l := cl[t.Name+"."+c.Name]
+			if seen[l] {
+				return true
+			}
+			seen[l] = true
+		}
+	}
+	return false
+}
+
 // compareTable: the catalog's table against the abstract table; returns (clause, column, detail) triples
 type diff struct{ clause, col, detail string }
 
@@ -423,6 +439,9 @@ func judgeDelta(c *common.Ctx, o, n *Model, ss []stmt, base, cat *catalog, xerr 
 			if d.col != "" {
 				origin = colOrigin(o, n, t.Name, d.col)
 			}
+			if d.clause == "type" {
+				origin = typeCause(o, n, t.Name, d.col)
+			}
 			c.Fail(mode+":"+d.clause+":"+origin, "after creation script + delta, "+d.detail, rp)
 			ok = false
 		}
@@ -443,3 +462,62 @@ func sameSchema(o, n *Model) bool {
 	return true
 }
 
+
+// terminal: follow references in m from (tn, cn) to the plain column that gives the type
+func terminal(m *Model, tn, cn string) (*Table, *Col) {
+	for i := 0; i < 64; i++ {
+		t := m.table(tn)
+		if t == nil {
+			return nil, nil
+		}
+		c := t.col(cn)
+		if c == nil {
+			return nil, nil
+		}
+		if c.Ref == nil {
+			return t, c
+		}
+		tn, cn = c.Ref[0], c.Ref[1]
+	}
+	return nil, nil
+}
+
+// typeCause: the one change that explains why column tn.cn of the new version has a type other than the model's
+func typeCause(o, n *Model, tn, cn string) string {
+	nt, ot := n.table(tn), o.table(tn)
+	nc := nt.col(cn)
+	var oc *Col
+	if ot != nil {
+		oc = ot.col(cn)
+	}
+	if nc.Ref == nil {
+		switch {
+		case nc.Auto && oc != nil && oc.Ref == nil && oc.Auto && (oc.Prim != nc.Prim || oc.Size != nc.Size):
+			return "autoinc-column-retyped"
+		case nc.Auto && oc != nil && (oc.Ref != nil || !oc.Auto):
+			return "autoinc-added"
+		}
+		return "other:" + colOrigin(o, n, tn, cn)
+	}
+	if oc != nil && oc.Ref != nil && *oc.Ref != *nc.Ref {
+		return "ref-retargeted"
+	}
+	if oc != nil && oc.Ref != nil {
+		if expType(o, ot, oc, 0) != expType(n, nt, nc, 0) {
+			return "reference-to-retyped-column"
+		}
+		return "other:" + colOrigin(o, n, tn, cn)
+	}
+	// a reference that is new (column added, table added, plain column turned into a reference)
+	if tt, tc := terminal(n, nc.Ref[0], nc.Ref[1]); tc != nil && tc.Auto {
+		if ott := o.table(tt.Name); ott != nil {
+			if otc := ott.col(tc.Name); otc != nil && otc.Ref == nil {
+				if otc.Auto {
+					return "new-reference-to-retained-autoinc"
+				}
+				return "new-reference-to-autoinc-added"
+			}
+		}
+	}
+	return "other:" + colOrigin(o, n, tn, cn)
+}
